@@ -2315,7 +2315,7 @@ class NetSim(enginemod.Engine):
 
     def quick_runs(self, prop):
         # ~10 s (C14) / ~13 s (C16) of CPU per core on 16 cores
-        return 8000 if prop == 'C14' else 5200
+        return 8000 if prop == 'C14' else 4400
 
     def make_config(self, prop, tier, rng):
         return make_config(prop, tier, rng)
